@@ -11,6 +11,7 @@ abstract lines; the file is read back by polyply's own readers and projected ont
 import json
 import os
 import random
+import re
 import runpy
 import shlex
 import sys
@@ -106,17 +107,38 @@ def polyply_script():
     return Path(polyply.__file__).resolve().parents[1] / "bin" / "polyply"
 
 
+MISSING_MSG = re.compile(r"Missing a link between residue (\S+) (\S+) and residue (\S+) (\S+)\.")
+
+
+class _LoggerProxy:
+    """stands in for gen_itp.LOGGER: records the warnings (the check runs with logging switched off) and forwards everything"""
+
+    def __init__(self, orig, sink):
+        self._orig, self._sink = orig, sink
+
+    def warning(self, msg, *args, **kwargs):
+        try:
+            text = str(msg).format(*args, **{k: v for k, v in kwargs.items() if k != "type"})
+        except Exception:
+            text = str(msg)
+        self._sink.append(text)
+        return self._orig.warning(msg, *args, **kwargs)
+
+    def __getattr__(self, name):
+        return getattr(self._orig, name)
+
+
 class Capture:
-    """wraps the writer call and the missing-link query of gen_params (no hooks inside the repository)"""
+    """wraps the writer call, the missing-link query and the logger of gen_params (no hooks inside the repository)"""
 
     def __init__(self):
         import vermouth.gmx.itp as vitp
         import polyply.src.gen_itp as gi
         self.vitp, self.gi = vitp, gi
-        self.orig_write, self.orig_missing = vitp.write_molecule_itp, gi.find_missing_edges
+        self.orig_write, self.orig_missing, self.orig_logger = vitp.write_molecule_itp, gi.find_missing_edges, gi.LOGGER
         self.built = None
         self.req = None
-        self.missing = None
+        self.warnings = []
         self.stage = "start"
         cap = self
 
@@ -134,13 +156,22 @@ class Capture:
             res = list(cap.orig_missing(meta, molecule))
             cap.stage = "links applied"
             cap.req = project_resgraph(meta)
-            cap.missing = [sorted([norm_token(m["idxA"]), norm_token(m["idxB"])]) for m in res]
             return iter(res)
         vitp.write_molecule_itp = write_molecule_itp
         gi.find_missing_edges = find_missing_edges
+        gi.LOGGER = _LoggerProxy(self.orig_logger, self.warnings)
+
+    def missing(self):
+        """residue pairs named by the missing-link warnings"""
+        res = []
+        for text in self.warnings:
+            m = MISSING_MSG.search(text)
+            if m:
+                res.append(sorted([norm_token(m.group(1)), norm_token(m.group(3))]))
+        return res
 
     def close(self):
-        self.vitp.write_molecule_itp, self.gi.find_missing_edges = self.orig_write, self.orig_missing
+        self.vitp.write_molecule_itp, self.gi.find_missing_edges, self.gi.LOGGER = self.orig_write, self.orig_missing, self.orig_logger
 
 
 def run_command(argv, cwd):
@@ -188,7 +219,7 @@ def run_command(argv, cwd):
     rec["accepted"] = cap.stage != "start"          # mapping and link application passed
     rec["built"] = cap.built
     rec["req"] = cap.req
-    rec["missing"] = cap.missing
+    rec["missing"] = cap.missing() if cap.stage != "start" else None
     rec["written"] = out.exists()
     rec["text"] = out.read_text() if rec["written"] else ""
     return rec
@@ -385,10 +416,12 @@ def _rpar(rng, sec, sane=False):
         return ["1", "1000", "1000", rng.choice(["1000", "0"])]
     if sec == "dihedral_restraints":
         return ["1", _rnum(rng, 0, 180, 0), "0", _rnum(rng, 10, 100, 0)]
+    if sec == "angle_restraints_z":
+        return ["1", _rnum(rng, 0, 90, 0), _rnum(rng, 10, 100, 0), "1"]
     raise KeyError(sec)
 
 
-NAT = {"bonds": 2, "constraints": 2, "angles": 3, "dihedrals": 4, "impropers": 4, "pairs": 2, "exclusions": 2, "virtual_sites2": 3,
+NAT = {"angle_restraints_z": 2, "bonds": 2, "constraints": 2, "angles": 3, "dihedrals": 4, "impropers": 4, "pairs": 2, "exclusions": 2, "virtual_sites2": 3,
        "virtual_sites3": 4, "virtual_sitesn": 3, "position_restraints": 1, "dihedral_restraints": 4}
 
 
@@ -430,6 +463,8 @@ def random_polymer(rng):
         for _ in range(rng.randint(0, 5)):
             sec = rng.choice(["bonds", "bonds", "constraints", "angles", "dihedrals", "impropers", "pairs", "exclusions", "virtual_sites2",
                               "virtual_sitesn", "position_restraints", "dihedrals"])
+            if rng.random() < 0.03:
+                sec = rng.choice(["angle_restraints_z", "virtual_sites3", "dihedral_restraints"])
             n = NAT[sec]
             if sec == "exclusions":
                 n = rng.randint(2, 3)
